@@ -45,6 +45,8 @@ type SCfg struct {
 	// HoldAppend: the first Store.Append of exactly the header of this height is held until a "store"
 	// event lets it through or fails it (a stalled write that ends with the caller's deadline)
 	HoldAppend uint64 `json:"hold_append,omitempty"`
+	// HoldStart: the case is a Start history (c19StartHistory): Start's own initialisation request is held
+	HoldStart bool `json:"hold_start,omitempty"`
 }
 
 func (c SCfg) String() string {
